@@ -53,6 +53,119 @@ HARDENING = {
                          "of calls); controls control-c06-1/2 stay silent",
 }
 
+import os
+import re
+
+
+def _struct_fields(src, type_re):
+    """(type name, [(field, type)]) of `type <type_re>[...] struct { ... }`; fields None if not understood"""
+    m = re.search(r"^type\s+(" + type_re + r")\s*\[[^\]]*\]\s*struct\s*\{(.*?)^\}", src, re.S | re.M)
+    if not m:
+        return None, None
+    fields = []
+    for line in m.group(2).splitlines():
+        line = line.split("//", 1)[0].strip()
+        if not line:
+            continue
+        mm = re.match(r"^([A-Za-z_][A-Za-z_0-9]*(?:\s*,\s*[A-Za-z_][A-Za-z_0-9]*)*)\s+(\S.*)$", line)
+        if not mm:
+            return m.group(1), None
+        for name in mm.group(1).split(","):
+            fields.append((name.strip(), mm.group(2).strip()))
+    return m.group(1), fields
+
+
+def _discover(repo):
+    """Roles of the unexported declarations of package redblack in the working tree, recognised by TYPE (and, for the
+    three node pointers and the sense of the colour bit, by name), so that a pure renaming does not break the
+    white-box overlay.  Returns the substitutions for the accessor block of go/overlay/redblack_verif.go, or None."""
+    d = os.path.join(repo, "collection", "redblack")
+    try:
+        src = "\n".join(open(os.path.join(d, f)).read() for f in sorted(os.listdir(d))
+                        if f.endswith(".go") and not f.endswith("_test.go"))
+    except OSError:
+        return None
+    _, tf = _struct_fields(src, "Tree")
+    if not tf:
+        return None
+    ptrs = [(n, t) for n, t in tf if t.startswith("*")]
+    funcs = [n for n, t in tf if t.startswith("func")]
+    ints = [n for n, t in tf if t == "int"]
+    if not ptrs or len(funcs) != 1 or len(ints) != 1:
+        return None
+    m = re.match(r"^\*([A-Za-z_][A-Za-z_0-9]*)\[", ptrs[0][1])
+    if not m:
+        return None
+    ntype = m.group(1)
+    roots = [n for n, _ in ptrs if re.search(r"root|top|head|base", n, re.I)] or [ptrs[0][0]]
+    _, nf = _struct_fields(src, re.escape(ntype))
+    if not nf:
+        return None
+    keys = [n for n, t in nf if t == "K"]
+    vals = [n for n, t in nf if t == "V"]
+    bools = [n for n, t in nf if t == "bool"]
+    nptrs = [n for n, t in nf if t.startswith("*" + ntype + "[")]
+    if len(keys) != 1 or len(vals) != 1 or len(bools) != 1 or len(nptrs) != 3:
+        return None
+    left = [n for n in nptrs if re.search(r"left|^l$|^lo$|lower|less|small|prev|pred", n, re.I)]
+    right = [n for n in nptrs if re.search(r"right|^r$|^hi$|high|upper|great|large|next|succ", n, re.I)]
+    if len(left) != 1 or len(right) != 1 or left == right:
+        return None
+    parent = [n for n in nptrs if n not in (left[0], right[0])]
+    black = ("!n." if re.search(r"red", bools[0], re.I) else "n.") + bools[0]
+    return {"node": ntype, "t.root": "t." + roots[0], "t.count": "t." + ints[0], "t.compare": "t." + funcs[0],
+            "n.parent": "n." + parent[0], "n.left": "n." + left[0], "n.right": "n." + right[0], "n.black": black,
+            "n.key": "n." + keys[0], "n.value": "n." + vals[0]}
+
+
+def _overlay_for(ctx):
+    """(path of the overlay source adapted to the private names of the working tree, {old: new} of what was renamed);
+    the unadapted file under go/overlay when the roles are not recognisable"""
+    from vlib.core import GO
+    static = os.path.join(GO, "overlay", "redblack_verif.go")
+    sub = _discover(ctx.repo)
+    if sub is None:
+        return static, None
+    renamed = {k: v for k, v in sub.items() if v != k}
+    if not renamed:
+        return static, {}
+    src = open(static).read()
+    a, b = src.index("// ---- accessor block"), src.index("// ---- end of accessor block")
+    block = src[a:b]
+    for k in ("t.root", "t.count", "t.compare", "n.parent", "n.left", "n.right", "n.black", "n.key", "n.value"):
+        block = block.replace("return " + k + " ", "return " + sub[k] + " ")
+    src = src[:a] + block + src[b:]
+    src = re.sub(r"\bnode\[K, V\]", sub["node"] + "[K, V]", src)
+    path = os.path.join(ctx.work, "redblack_verif_adapted.go")
+    with open(path, "w") as f:
+        f.write(src)
+    return path, renamed
+
+
+class _Fallback:
+    """canon wrapper for a black-box run (overlay unavailable): node dumps are compared without values (Dump() does
+    not print them); when the harness could not read Dump()'s text (`dump-unavailable`) the model's dump of the same
+    line is not compared.  core calls canon in pairs `canon(impl), canon(model)`."""
+
+    def __init__(self, inner):
+        self.inner = inner
+        self.first = True
+        self.unavailable = False
+
+    def __call__(self, out):
+        res = self.inner(out)
+        is_dump = out.endswith("parents=ok") or out.endswith("parents=BAD")
+        if self.first:
+            self.unavailable = out.startswith("dump-unavailable")
+        elif self.unavailable and is_dump:
+            self.first = True
+            return self.inner("dump-unavailable parents=ok")
+        self.first = not self.first
+        if is_dump and not res.startswith("dump "):
+            res = re.sub(r":-?\d+", "", res)
+        return res
+
+
 def _tag(line, out):
     w = line.split(" ", 1)[0]
     if w == "get" and out.startswith("none"):
@@ -145,13 +258,32 @@ def run(ctx):
                         "Insert/Remove on the tree it is traversing is outside the theorems and outside the correspondence "
                         "run (the library does not define that case and the functional model does not transcribe it)"]
     ctx.lean(props=["Props.C06"], drivers=["drv_c06"])
-    ctx.harness("./cmd/c06", overlay={"collection/redblack/verif_dump.go": "redblack_verif.go"})
+    # White-box observation needs the private names of package redblack.  (1) The overlay's accessor block is adapted to
+    # the names found in the working tree (a pure renaming of unexported identifiers is not a change of behaviour);
+    # (2) if the overlay still does not compile, core builds the harness without it under tag `nooverlay`
+    # (go/cmd/c06/blackbox.go): structure and colours are then read from the text of the exported Tree.Dump(), values
+    # inside dumps and parent links are not observed.  VERIF_C06_FORCE_NOOVERLAY=1 forces (2) (sensitivity experiments).
+    ov, renamed = _overlay_for(ctx)
+    if os.environ.get("VERIF_C06_FORCE_NOOVERLAY") == "1":
+        ctx.harness("./cmd/c06", tags="verif nooverlay")
+        ctx.extra["overlay_fallback"] = "forced by VERIF_C06_FORCE_NOOVERLAY=1"
+    else:
+        ctx.harness("./cmd/c06", overlay={"collection/redblack/verif_dump.go": ov})
+    fallback = "overlay_fallback" in ctx.extra
+    if fallback:
+        ctx.extra["overlay_fallback_skipped"] = (
+            "parent-link consistency; which value sits in which node (dumps compared without values); node structure "
+            "and colours are read from Tree.Dump() text instead of the nodes (if that text cannot be parsed: no shape "
+            "comparison and no colour invariants, balance through the comparison bound only)")
+    elif renamed:
+        ctx.extra["overlay_adapted_private_names"] = renamed
+    ctx.extra["observation"] = "black-box (Tree.Dump() text + exported API)" if fallback else "white-box (overlay)"
     common = dict(area="rbtree", driver="drv_c06", stateful=True, trivial=lambda l, o: l in ("inv",),
                   model_only=lambda l: l.startswith("dump"))
     # pass A: observable behaviour only (node dumps reduced to the parent-link bit), so that a behavioural difference
     # is minimised and reported as such, with its concrete failing history, and is not crowded out by the shape
     # differences (model-only observable) that usually precede it in the same history
-    ctx.diff(n={"quick": 500000, "thorough": 3000000}, canon=_behaviour_only,
+    ctx.diff(n={"quick": 500000, "thorough": 3000000}, canon=_Fallback(_behaviour_only) if fallback else _behaviour_only,
              theorem="C06.inorder_run / remove_inorder / queries_run / traverseFrom_run / count_run / run_inv / "
                      "compares_run are theorems about the model RB.Tree; the implementation differs from the model on "
                      "this history (or exceeds the comparison bound: cmp-bad, or breaks an invariant: inv)",
@@ -160,7 +292,7 @@ def run(ctx):
              **common)
     # pass B: the same plus node shape and colours (op `dump`, model-only observable)
     stats = _CountStats()
-    ctx.diff(n={"quick": 1000000, "thorough": 16000000}, canon=stats, tagger=_tag,
+    ctx.diff(n={"quick": 1000000, "thorough": 16000000}, canon=_Fallback(stats) if fallback else stats, tagger=_tag,
              theorem="C06.height_run / run_inv hold for the model, whose shape the implementation is expected to share; "
                      "the implementation's shape (or result, or comparison-bound verdict) differs from the model on "
                      "this history",
